@@ -135,6 +135,12 @@ func (s *nullChunkSection) clone(dst *os.File, offset, length, blocksize uint64)
 	dstAlignStart := (offset/blocksize + 1) * blocksize
 	dstAlignEnd := (offset + length) / blocksize * blocksize
 
+	// No complete block inside the range: nothing to clone, and the two partial
+	// copies below would write zeros beyond both ends of it
+	if dstAlignStart >= dstAlignEnd {
+		return s.copy(dst, offset, length)
+	}
+
 	// fill the area before the first aligned block
 	var copied, cloned uint64
 	c1, _, err := s.copy(dst, offset, dstAlignStart-offset)
